@@ -101,6 +101,9 @@ def o_c02(scn, obs, runner, driver):
     # whatever the operations' outcomes: on a connection without write-side faults the peer must never have received a complete
     # frame that is not a well-formed message (wrong magic / unknown command / checksum): bytes were duplicated, lost or reordered
     for ci, c in enumerate(runner.link.used):
+        told = any(o.get("conn") == ci and o["res"] in ("err TransportTimeout", "err TransportError", "err AdbTimeoutError") for o in obs)
+        if c.env.get("olate") and told:
+            continue      # a write reported the transport's timeout error to the caller: later traffic on that connection is the caller's risk
         if c.sim.malformed is not None and not any(f[0] == "out" for f in c.env.get("faults", [])):
             fails.append(dict(op=None, why="connection %d: the peer received a frame that is not a well-formed ADB message (header words %r)" % (ci, c.sim.malformed)))
     return fails
@@ -134,6 +137,9 @@ def o_c13(scn, obs, runner):
             avail = False
             if op.get("transport_close_raises") and not o["res"].startswith("err"):
                 pass
+        elif k == "ss_defer":
+            if o["res"] != "ok none" or o["peer"] != "-":
+                fails.append(dict(op=i, why="obtaining the streaming_shell generator (not iterating it) gave %s and sent %s" % (o["res"], o["peer"][:40])))
         else:
             empty_path = k in ("list", "stat", "pull", "push") and op.get("path") == b""
             if empty_path:
@@ -299,6 +305,8 @@ def o_c05(scn, obs, runner):
                 break
             hs.append(p)
         banner = scn.get("banner", b"verif")
+        if o["res"] in ("err TransportTimeout", "err TransportError", "err AdbTimeoutError") and (c.env.get("olate") or ((c.env.get("faults") or c.env.get("ozeros")) and not hs)):
+            continue        # the transport itself failed during the handshake (late-timeout writes / before one whole message was out): C12/C15's subject
         if not hs or hs[0] != (b"CNXN", constants.VERSION, constants.MAX_ADB_DATA, b"host::" + banner + b"\0"):
             fails.append(dict(op=i, why="first message is %r" % (hs[:1],)))
             continue
@@ -407,7 +415,7 @@ def o_c04(scn, obs, runner):
     HOST's viewpoint (a device packet counts only once the host has read it)."""
     fails = []
     for ci, c in enumerate(runner.link.used):
-        clean = not c.env.get("faults") and getattr(c.sim, "corrupted", None) is None
+        clean = not c.env.get("faults") and not c.env.get("olate") and getattr(c.sim, "corrupted", None) is None
         views = [("device view", c.sim.log)] + ([("host view", host_view_log(c))] if clean else [])
         for view, plog in views:
             fails += ["%s: %s" % (view, f) for f in _monitor(plog)]
@@ -576,6 +584,93 @@ def o_c11(scn, obs, runner):
         if elapsed > bound:
             fails.append(dict(op=i, why="%s took %d ticks; %d packets were delivered to it, so at most %d waits of <= %d ticks each are justified (bound %d; rt=%s tt=%s t=%s, call cost %d)" % (
                 op["op"], elapsed, len(mine), len(mine) + 3, per_wait, bound, rt, tt, t, D)))
+    return fails
+
+
+def _frame_touches(c):
+    """[(start, end, [(t_call_begin, t_call_end), ...])] for every inbound packet: the read calls that returned bytes of it."""
+    stream = b"".join(raw for need, raw in c.segs)
+    frames, i = [], 0
+    while i + 24 <= len(stream):
+        e = i + 24 + int.from_bytes(stream[i + 12:i + 16], "little")
+        frames.append((i, e, []))
+        i = e
+    pos, fi = 0, 0
+    D = int(c.env.get("dt", 1))
+    for call in c.calls:
+        if call[0] != "r" or not isinstance(call[2], int) or call[2] == 0 or len(call) < 4:
+            continue
+        lo, hi, now = pos, pos + call[2], call[3]
+        pos = hi
+        while fi < len(frames) and frames[fi][1] <= lo:
+            fi += 1
+        j = fi
+        while j < len(frames) and frames[j][0] < hi:
+            frames[j][2].append((now - D, now))
+            j += 1
+    return [f for f in frames if f[2]]
+
+
+def o_c11_packet(scn, obs, runner):
+    """The wait for ONE packet is bounded (theorem C11_ioRead_bound): within one operation, from the first byte of a packet to its last byte
+    (or to the last byte the operation got before giving up) never more than R + 2(R + max(D, tau)) passes, however the bytes trickle."""
+    fails = []
+    tables = {}
+    prev_now = scn.get("now", 1 << 40)
+    for i, (op, o) in enumerate(zip(scn["ops"], obs)):
+        t_lo, t_hi = prev_now, o["now"]
+        prev_now = o["now"]
+        ci = o.get("conn", -1)
+        rt, tt, t = op.get("rt", 10240), op.get("tt"), op.get("t")
+        if tt is None:
+            tt = scn.get("dtt")
+        if rt is None or rt < 0 or (tt is not None and tt < 0) or (t is not None and t < 0) or o["res"] == "err Hang" or not (0 <= ci < len(runner.link.used)):
+            continue
+        c = runner.link.used[ci]
+        if ci not in tables:
+            tables[ci] = _frame_touches(c)
+        D = max(int(c.env.get("dt", 1)), 1)
+        eff_rt = rt if t is None else min(rt, t)
+        eff_tt = eff_rt if tt is None else min(tt, eff_rt)
+        if op["op"] == "connect":
+            eff_tt = max(eff_tt, op.get("at", 10240) or 0)
+            eff_rt = max(eff_rt, op.get("at", 10240) or 0)
+        per_wait = eff_rt + 2 * (eff_rt + max(D, eff_tt))
+        if op["op"] in ("pull", "push", "stat", "list"):
+            per_wait *= 3       # after a failed wait these close their stream, which waits again (possibly on the same half-read packet)
+        for st, en, touches in tables[ci]:
+            mine = [(a, b) for a, b in touches if t_lo <= a and b <= t_hi]
+            if mine and mine[-1][1] - mine[0][0] > per_wait:
+                fails.append(dict(op=i, why="%s kept waiting %d ticks for the bytes of ONE packet (offsets %d..%d; a single wait is bounded by %d; rt=%s tt=%s t=%s, call cost %d)" % (
+                    op["op"], mine[-1][1] - mine[0][0], st, en, per_wait, rt, tt, t, D)))
+                break
+    return fails
+
+
+def o_c11_total(scn, obs, runner):
+    """Whole-command limit: shell / exec_out / root with timeout_s = t end within t plus ONE more iteration of the stream loop (the limit is
+    checked after every iteration) plus the OPEN exchange, however much traffic the device keeps sending on the stream."""
+    fails = []
+    prev_now = scn.get("now", 1 << 40)
+    for i, (op, o) in enumerate(zip(scn["ops"], obs)):
+        elapsed = o["now"] - prev_now
+        prev_now = o["now"]
+        rt, tt, t = op.get("rt", 10240), op.get("tt"), op.get("t")
+        if tt is None:
+            tt = scn.get("dtt")
+        if op["op"] not in ("shell", "exec_out", "root") or t is None or t < 0 or rt is None or rt < 0 or (tt is not None and tt < 0):
+            continue
+        ci = o.get("conn", -1)
+        if o["res"] == "err Hang" or not (0 <= ci < len(runner.link.used)):
+            continue
+        D = max(int(runner.link.used[ci].env.get("dt", 1)), 1)
+        eff_rt = min(rt, t)
+        eff_tt = eff_rt if tt is None else min(tt, eff_rt)
+        per_wait = eff_rt + 2 * (eff_rt + max(D, eff_tt))
+        bound = t + 2 * per_wait + 10 * D
+        if elapsed > bound:
+            fails.append(dict(op=i, why="%s with timeout_s = %d ticks took %d ticks (> %d = limit + the OPEN exchange + one more packet wait; rt=%s tt=%s, call cost %d)" % (
+                op["op"], t, elapsed, bound, rt, tt, D)))
     return fails
 
 
